@@ -40,6 +40,7 @@ Lines ==
      [kind |-> "assign",  line |-> "lines",          opt |-> "granularity", val |-> "lines"],
      [kind |-> "assign",  line |-> "granularity=files", opt |-> "granularity", val |-> "files"],
      [kind |-> "assign",  line |-> "nodecount=2",    opt |-> "nodecount", val |-> "2"],
+     [kind |-> "assign",  line |-> "nodecount=-2",   opt |-> "nodecount", val |-> "-2"],   \* negative other than the default -1: no limit
      [kind |-> "assign",  line |-> "sample_index=s1", opt |-> "sample_index", val |-> "s1"],
      [kind |-> "assign",  line |-> "cum",            opt |-> "sort", val |-> "cum"],
      [kind |-> "assign",  line |-> "noinlines",      opt |-> "noinlines", val |-> "true"],
